@@ -301,6 +301,12 @@ func withHelpers(fn *ssa.Function) []*ssa.Function {
 						out = append(out, callee)
 					}
 				}
+				if d, ok := in.(*ssa.Defer); ok {
+					if callee := d.Call.StaticCallee(); callee != nil && !seen[callee] && callee.Parent() != nil && calledLiteral(callee) {
+						seen[callee] = true
+						out = append(out, callee)
+					}
+				}
 			}
 		}
 	}
@@ -871,7 +877,15 @@ func resolvedEq(a, b ssa.Value) bool {
 	}
 	// a variable assigned on several branches (a phi) and the value it holds on this path
 	pa, pb := valueOnPath(ra, curPath.path), valueOnPath(rb, curPath.path)
-	return (pa != ra || pb != rb) && sameValue(pa, pb)
+	if (pa != ra || pb != rb) && sameValue(pa, pb) {
+		return true
+	}
+	// … and a variable kept in memory (a field, a captured local, a named result) read back at the branch being judged
+	if curEdgeIdx >= 0 && curEdgeIdx < len(curPath.path) {
+		qa, qb := resolveOn(a, curEdgeIdx, curPath.path), resolveOn(b, curEdgeIdx, curPath.path)
+		return (qa != a || qb != b) && sameValue(qa, qb)
+	}
+	return false
 }
 
 func pathAsserts(path []ssa.Instruction, pred func(c ssa.Value, truth bool) bool) bool {
@@ -1316,6 +1330,25 @@ type frame struct {
 	retIdx   int
 	ret      *ssa.Return // the return taken on this path (set when the callee returns)
 	depth    int
+	// a deferred function run at its parent's RunDefers: the defer statement, and the deferred functions still to run
+	// after this one before the parent goes on
+	deferred *ssa.Defer
+	rest     []*ssa.Defer
+	// an activation the walk entered in the middle (the start of the walk, or the call site of the helper the walk
+	// started in): where
+	midB *ssa.BasicBlock
+	midI int
+}
+
+// callCommon: the call that created this activation (a call, or a defer statement).
+func (fr *frame) callCommon() *ssa.CallCommon {
+	if fr.deferred != nil {
+		return &fr.deferred.Call
+	}
+	if fr.call != nil {
+		return &fr.call.Call
+	}
+	return nil
 }
 
 // pathCtx describes the path currently handed to a visit callback.
@@ -1358,7 +1391,11 @@ func (pc *pathCtx) res(v ssa.Value, fr *frame) (ssa.Value, *frame) {
 					idx = k
 				}
 			}
-			args := fr.call.Call.Args
+			cc := fr.callCommon()
+			if cc == nil {
+				return v, fr
+			}
+			args := cc.Args
 			if idx < 0 || idx >= len(args) {
 				return v, fr
 			}
@@ -1463,6 +1500,7 @@ func walkPathsP(start Loc, terminal func(ssa.Instruction) bool, edgeOK func(b *s
 						fr.retIdx = i + 1
 					}
 				}
+				parent.midB, parent.midI = c.Block(), fr.retIdx
 				if pc.children[parent] == nil {
 					pc.children[parent] = map[*ssa.Call]*frame{}
 				}
@@ -1472,6 +1510,9 @@ func walkPathsP(start Loc, terminal func(ssa.Instruction) bool, edgeOK func(b *s
 		return fr
 	}
 	root := build(start.B.Parent(), 0)
+	if start.B != start.B.Parent().Blocks[0] || start.I != 0 {
+		root.midB, root.midI = start.B, start.I
+	}
 	emit := func(end pathEnd) error {
 		n++
 		if n > budget {
@@ -1509,10 +1550,41 @@ func walkPathsP(start Loc, terminal func(ssa.Instruction) bool, edgeOK func(b *s
 				if fr.parent == nil {
 					return emit(endTerminal)
 				}
+				if fr.deferred != nil && len(fr.rest) > 0 {
+					// the next deferred function of the same activation
+					if nf := deferFrame(fr.rest, fr.parent, fr.retBlock, fr.retIdx); nf != nil {
+						return rec(nf.fn.Blocks[0], 0, nf)
+					}
+				}
 				fr.ret = x
 				err := rec(fr.retBlock, fr.retIdx, fr.parent)
 				fr.ret = nil
 				return err
+			case *ssa.RunDefers:
+				// the function literals and helpers this activation has deferred on this path run here, last first
+				if inlineOK != nil && theWorld != nil && fr.depth < 3 {
+					var ds []*ssa.Defer
+					for j := len(pc.path) - 1; j >= 0; j-- {
+						if d, ok := pc.path[j].(*ssa.Defer); ok && pc.frames[j] == fr {
+							ds = append(ds, d)
+						}
+					}
+					if fr.midB != nil {
+						// entered in the middle: what was deferred before that point on every way to it
+						for _, db := range fr.fn.Blocks {
+							for di := len(db.Instrs) - 1; di >= 0; di-- {
+								if d, ok := db.Instrs[di].(*ssa.Defer); ok {
+									if (db == fr.midB && di < fr.midI) || (db != fr.midB && db.Dominates(fr.midB)) {
+										ds = append(ds, d)
+									}
+								}
+							}
+						}
+					}
+					if nf := deferFrame(ds, fr, b, i+1); nf != nil && !onStack(fr, nf.fn) {
+						return rec(nf.fn.Blocks[0], 0, nf)
+					}
+				}
 			case *ssa.Call:
 				callee := x.Call.StaticCallee()
 				viaValue := false
@@ -1572,6 +1644,22 @@ func walkPathsP(start Loc, terminal func(ssa.Instruction) bool, edgeOK func(b *s
 	return rec(start.B, start.I, root)
 }
 
+// deferFrame: the activation of the first deferred function of ds that is walked through (a function literal or a
+// helper of the module), with the remaining ones queued behind it; nil if none is.
+func deferFrame(ds []*ssa.Defer, parent *frame, retBlock *ssa.BasicBlock, retIdx int) *frame {
+	for k, d := range ds {
+		callee := d.Call.StaticCallee()
+		if callee == nil || callee.Blocks == nil || !theWorld.inModule(callee) || theWorld.TestSupport[callee] {
+			continue
+		}
+		if callee.Parent() == nil && !inlineOK(callee) {
+			continue // a function the rules know by name: the defer statement itself is what they look at
+		}
+		return &frame{fn: callee, deferred: d, rest: ds[k+1:], parent: parent, retBlock: retBlock, retIdx: retIdx, depth: parent.depth + 1}
+	}
+	return nil
+}
+
 // phiFeasible prunes edges whose condition is decided once phis are resolved
 // along the path: `x != nil` with x a phi of nil / MakeInterface, and
 // comparisons of two constants.
@@ -1608,6 +1696,9 @@ func phiFeasible(b *ssa.BasicBlock, succ int, path []ssa.Instruction) bool {
 	}
 	if x, eq, isN := nilCompare(c); isN {
 		v := resolveOn(x, len(path)-1, path)
+		if os.Getenv("XDEBUG") == "2" && theWorld != nil {
+			fmt.Fprintf(os.Stderr, "    nil-compare of %s -> %s\n", x.String(), v.String())
+		}
 		// contradiction with an earlier nil test of the same (resolved) value on this path
 		if !isNilConst(v) {
 			contra := false
@@ -1801,11 +1892,155 @@ func resolveOn(v ssa.Value, idx int, path []ssa.Instruction) ssa.Value {
 				v, idx = m, at
 				continue
 			}
+			// a local variable that lives in memory (captured by a function literal, or a named result of a function
+			// with defers) read after it was assigned on this path
+			if m, at := cellLoadOnPath(v, idx, path); m != nil {
+				v, idx = m, at
+				continue
+			}
 			return v
 		}
 		v = n
 	}
 	return v
+}
+
+// cellOf: the local variable (Alloc) an address stands for in activation fr — the Alloc itself, or, for a captured
+// variable of a function literal, the variable of the enclosing activation it is bound to. nil if unknown.
+func cellOf(addr ssa.Value, fr *frame) (*ssa.Alloc, *frame) {
+	for k := 0; k < 4; k++ {
+		switch x := addr.(type) {
+		case *ssa.Alloc:
+			if x.Heap && len(*x.Referrers()) == 0 {
+				return nil, nil
+			}
+			return x, fr
+		case *ssa.FreeVar:
+			if fr == nil || fr.fn != x.Parent() || fr.parent == nil || curPath == nil {
+				return nil, nil
+			}
+			cc := fr.callCommon()
+			if cc == nil {
+				return nil, nil
+			}
+			fv, pf := curPath.res(cc.Value, fr.parent)
+			mc, ok := fv.(*ssa.MakeClosure)
+			if !ok || mc.Fn != ssa.Value(fr.fn) {
+				return nil, nil
+			}
+			idx := -1
+			for i, f := range fr.fn.FreeVars {
+				if f == x {
+					idx = i
+				}
+			}
+			if idx < 0 || idx >= len(mc.Bindings) {
+				return nil, nil
+			}
+			addr, fr = mc.Bindings[idx], pf
+		default:
+			return nil, nil
+		}
+	}
+	return nil, nil
+}
+
+// cellLoadOnPath: for a load of a local variable that lives in memory, the value the nearest earlier store on the path
+// assigned to that variable (in this activation or, through a captured variable, in a function literal walked through
+// on the path). Gives up at a call that is not walked through and may run a literal that captures the variable.
+func cellLoadOnPath(v ssa.Value, idx int, path []ssa.Instruction) (ssa.Value, int) {
+	u, ok := v.(*ssa.UnOp)
+	if !ok || u.Op != token.MUL || curPath == nil || len(curPath.frames) < len(path) {
+		return nil, 0
+	}
+	switch u.X.(type) {
+	case *ssa.Alloc, *ssa.FreeVar:
+	default:
+		return nil, 0
+	}
+	if idx >= len(path) {
+		idx = len(path) - 1
+	}
+	at := -1
+	for i := idx; i >= 0; i-- {
+		if path[i] == ssa.Instruction(u) {
+			at = i
+			break
+		}
+	}
+	if at < 0 {
+		return nil, 0
+	}
+	cell, cfr := cellOf(u.X, curPath.frames[at])
+	if os.Getenv("XDEBUG") == "3" {
+		fmt.Fprintf(os.Stderr, "cellLoad %s at=%d cell=%v frame=%v\n", u.String(), at, cell, curPath.frames[at] != nil)
+	}
+	if cell == nil {
+		return nil, 0
+	}
+	// the function literals that capture the variable, and whether one of them is kept somewhere (stored, started as a
+	// goroutine): then any call that is not walked through may run it
+	capturing := map[ssa.Value]bool{}
+	escaped, deferredCap := false, false
+	for _, rf := range *cell.Referrers() {
+		mc, isMC := rf.(*ssa.MakeClosure)
+		if !isMC {
+			continue
+		}
+		capturing[mc] = true
+		for _, r2 := range *mc.Referrers() {
+			switch y := r2.(type) {
+			case *ssa.Call, *ssa.DebugRef:
+			case *ssa.Defer:
+				deferredCap = true
+				_ = y
+			default:
+				escaped = true
+			}
+		}
+	}
+	walked := func(i int) bool { return i+1 < len(path) && path[i+1].Parent() != path[i].Parent() }
+	for i := at - 1; i >= 0; i-- {
+		switch x := path[i].(type) {
+		case *ssa.Store:
+			if c2, f2 := cellOf(x.Addr, curPath.frames[i]); c2 == cell && f2 == cfr {
+				return x.Val, i
+			}
+		case *ssa.Alloc:
+			if x == cell && curPath.frames[i] == cfr {
+				return nil, 0 // declared here: zero value, nothing stored yet
+			}
+		case *ssa.RunDefers:
+			if deferredCap && curPath.frames[i] == cfr && !walked(i) {
+				// a capturing literal deferred on this path (or possibly before the walk's start) ran here unseen
+				pending := cfr != nil && cfr.midB != nil
+				for j := 0; j < i; j++ {
+					if d, ok := path[j].(*ssa.Defer); ok && curPath.frames[j] == cfr && capturing[d.Call.Value] {
+						pending = true
+					}
+				}
+				if pending {
+					return nil, 0
+				}
+			}
+		case *ssa.Call:
+			if len(capturing) == 0 || walked(i) {
+				continue
+			}
+			if escaped {
+				return nil, 0
+			}
+			if capturing[x.Call.Value] {
+				return nil, 0
+			}
+			for _, a := range x.Call.Args {
+				if capturing[a] {
+					return nil, 0
+				}
+			}
+		}
+	}
+	return nil, 0
 }
 
 // fieldLoadOnPath: for a load of a struct field, the value stored to the same field of the same object by the nearest
